@@ -6,8 +6,12 @@
 # bound / what (copied into the evidence file), known_class (only run when known_findings.txt
 # lists that class; expected to fail).
 
-def H(name, tiers, what="", bound="", expect="pass", timeout=900, mem_gb=16, known_class=None):
+def H(name, tiers, what="", bound="", expect="pass", timeout=900, mem_gb=16, known_class=None, search_boxes=None):
     d = dict(name=name, tiers=tiers, what=what, bound=bound, expect=expect, timeout=timeout, mem_gb=mem_gb)
+    if search_boxes:
+        # finite input boxes of the harness, in kani::any() order, as (byte width, lo, hi); only used to materialise a
+        # replayable witness natively when Kani's concrete-playback run cannot finish (see check: witness_search)
+        d["search_boxes"] = search_boxes
     if known_class:
         d["known_class"] = known_class
     return d
@@ -48,12 +52,13 @@ PROPERTIES["C08"] = dict(
     harnesses=[
         H("document::__verif::c08_p1_q", Q, "get_insertion_index == LSP offset (UTF-16 columns, clamping)", "any valid UTF-8 text <= 5 bytes; line <= 6, character <= 7; unwind 7", timeout=900),
         H("document::__verif::c08_p2_q", Q, "as_position == LSP position; get_insertion_index(as_position(i)) == i; out-of-range index clamps; as_pos_range", "any valid UTF-8 text <= 5 bytes; index <= 7; unwind 7", timeout=900),
-        H("document::__verif::c08_p3_one_change_a", QT, "one symbolic content change (ranged or range-less): fold(to_text_changes) == LSP reference; no panic", "concrete text 'a<U+1F600>LF b' (7 B); kind, positions <= (3,5) incl. overshoot, inserted string in {'', x, LF, U+1F600} symbolic; unwind 14", timeout=1500, mem_gb=24),
-        H("document::__verif::c08_p3_one_change_b", QT, "same", "concrete text '<e-acute>CRLF x LF' (6 B)", timeout=1500, mem_gb=24),
-        H("document::__verif::c08_p3_one_change_c", QT, "same", "empty document", timeout=1500, mem_gb=24),
+        H("document::__verif::c08_p3_one_change_a", QT, "one symbolic content change (ranged or range-less): fold(to_text_changes) == LSP reference; no panic", "concrete text 'a<U+1F600>LF b' (7 B); kind, positions <= (3,5) incl. overshoot, inserted string in {'', x, LF, U+1F600} symbolic; unwind 14", timeout=1500, mem_gb=24, search_boxes=[[(1, 1, 1), (1, 0, 3), (4, 0, 3), (4, 0, 5), (4, 0, 3), (4, 0, 5)], [(1, 0, 0), (1, 0, 3)]]),
+        H("document::__verif::c08_p3_one_change_b", QT, "same", "concrete text '<e-acute>CRLF x LF' (6 B)", timeout=1500, mem_gb=24, search_boxes=[[(1, 1, 1), (1, 0, 3), (4, 0, 3), (4, 0, 5), (4, 0, 3), (4, 0, 5)], [(1, 0, 0), (1, 0, 3)]]),
+        H("document::__verif::c08_p3_one_change_c", QT, "same", "empty document", timeout=1500, mem_gb=24, search_boxes=[[(1, 1, 1), (1, 0, 3), (4, 0, 3), (4, 0, 5), (4, 0, 3), (4, 0, 5)], [(1, 0, 0), (1, 0, 3)]]),
+        H("document::__verif::c08_p3_one_change_d", QT, "same", "concrete text 'a LF' (2 B)", timeout=1500, mem_gb=24, search_boxes=[[(1, 1, 1), (1, 0, 3), (4, 0, 3), (4, 0, 5), (4, 0, 3), (4, 0, 5)], [(1, 0, 0), (1, 0, 3)]]),
         H("document::__verif::c08_twin_must_fail", QT, "vacuity twin: end of harness reachable", "", expect="fail", timeout=600),
-        H("document::__verif::c08_p1_t", T, "get_insertion_index == LSP offset", "any valid UTF-8 text <= 6 bytes; line <= 7, character <= 8; unwind 8", timeout=2400, mem_gb=24),
-        H("document::__verif::c08_p2_t", T, "as_position / round trip", "any valid UTF-8 text <= 6 bytes; index <= 8; unwind 8", timeout=2400, mem_gb=24),
+        H("document::__verif::c08_p1_t", T, "get_insertion_index == LSP offset", "any valid UTF-8 text <= 12 bytes; line <= 13, character <= 14; unwind 14", timeout=7200, mem_gb=30),
+        H("document::__verif::c08_p2_t", T, "as_position / round trip", "any valid UTF-8 text <= 12 bytes; index <= 14; unwind 14", timeout=7200, mem_gb=30),
     ],
 )
 
@@ -179,6 +184,6 @@ PROPERTIES["C01"] = dict(
         H("parser::utility::__verif::c01_a2_twin_must_fail", QT, "vacuity twin", "", expect="fail", timeout=900),
         H("parser::__verif::c01_a4_scratch", QT, "Reference::parse frame conditions and offset: no old node", "concrete window/position; 4 old tokens + Eof of symbolic kind, symbolic enclosing frame and old offsets", timeout=900),
         H("parser::__verif::c01_a4_twin_must_fail", QT, "vacuity twin", "", expect="fail", timeout=900),
-        H("parser::utility::__verif::c01_a2_t", T, "affected(): reuse => same as parse from scratch", "6 old tokens + Eof; unwind 10", timeout=5400, mem_gb=30),
+        H("parser::utility::__verif::c01_a2_t", T, "affected(): reuse => same as parse from scratch", "8 old tokens + Eof, <=2 inserted; unwind 3 (loop-free harness)", timeout=5400, mem_gb=30),
     ],
 )
